@@ -441,7 +441,7 @@ def run_impl_guarded(cases, per_line_timeout=25.0, jobs=8, env=None):
 # ------------------------------------------------------------------ generator
 
 ATOMS = ['a', 'b', 'c']
-INTS = [1, 2, 3]
+INTS = [1, 2]
 POOL = ['X', 'Y', 'Z', 'W']
 
 
@@ -477,9 +477,9 @@ class Gen:
     def program(self):
         r = self.rng
         cl = []
-        for _ in range(r.randint(3, 7)):
+        for _ in range(r.randint(4, 8)):
             cl.append((S(self.name('p'), self.fact_arg(['A', 'B']), self.fact_arg(['A', 'B'])), TRUE))
-        for _ in range(r.randint(3, 7)):
+        for _ in range(r.randint(4, 8)):
             cl.append((S(self.name('r'), self.fact_arg(['A', 'B']), self.fact_arg(['A', 'B']),
                         self.fact_arg(['A', 'B'])), TRUE))
         p, rr, s = self.name('p'), self.name('r'), self.name('s')
@@ -498,7 +498,7 @@ class Gen:
 
     def arg(self, vs):
         r = self.rng
-        if r.random() < 0.78:
+        if r.random() < 0.86:
             return V(r.choice(vs))
         return self.const()
 
@@ -733,7 +733,8 @@ def make_case(cid, clauses, queries, forms, meta=None):
     allc = list(clauses) + list(queries)
     text = "\n".join(clause_pl(c) for c in allc)
     prog = " ;; ".join(clause_canon(c) for c in allc)
-    impl = ["L\t%s_l\tuser\t%s" % (cid, text.replace("\\", "\\\\").replace("\n", "\\n"))]
+    impl = ["Q\t%s_u\t1\tuse_module(library(iso_ext))." % cid,
+            "L\t%s_l\tuser\t%s" % (cid, text.replace("\\", "\\\\").replace("\n", "\\n"))]
     model = []
     qids = []
     for k, (h, _b) in enumerate(queries):
@@ -885,7 +886,7 @@ def run(ctx):
         c["run_qids"] = keep
         if keep:
             ic = dict(c)
-            ic["impl"] = [c["impl"][0]] + [l for l in c["impl"][1:] if core.line_id(l) in keep]
+            ic["impl"] = c["impl"][:2] + [l for l in c["impl"][2:] if core.line_id(l) in keep]
             runnable.append(ic)
     # 2. the implementation on the decided queries
     impl = run_impl_guarded([c["impl"] for c in runnable], per_line_timeout=15.0, env=IMPL_ENV)
@@ -963,9 +964,12 @@ def run(ctx):
                       "family": c.get("family"), "features": c.get("features"), "query": k, "text": c["text"],
                       "model_result": model.get(qid), "impl_result": impl.get(qid)}
             pinned_agrees = (ii is not None and ii != 'hang' and isinstance(mp, tuple) and compare(mp, ii) is None)
-            if pinned_agrees and divergent:
-                sig = {"family": "allsol", "defect": "caret-witnesses-by-append"}
-                detail += "\nthe implementation agrees with the model of the pinned lists:append/3 witness computation (finding C25-1)"
+            if divergent or mp == 'oof':
+                # the pinned lists:append/3 witness computation takes another route than the repaired
+                # one on this query (otherwise the two model runs are identical): finding C25-1
+                sig = {"family": "allsol", "defect": "caret-witnesses-by-append",
+                       "agrees_with_pinned_model": "yes" if pinned_agrees else ("out-of-model" if mp == 'oof' else "no")}
+                detail += "\nthe pinned lists:append/3 witness computation differs from the repaired one on this query (finding C25-1); implementation agrees with the pinned model: " + sig["agrees_with_pinned_model"]
             else:
                 sig = {"family": "allsol", "defect": "unclassified", "kind": problem[0], "constructs": cons}
             if rep is not None:
